@@ -19,8 +19,8 @@ ASSUMPTIONS = [
     'the task running step_until_terminated() is observed after the loop is quiescent (no wall clock)',
 ]
 BUDGET = {
-    'quick': {'enum': ['k1', 'k2', 'listener', 'hooks', 'tasks'], 'hyp': 4000, 'shards': 8},
-    'thorough': {'enum': ['k1', 'k2', 'k3', 'k4w', 'listener', 'hooks', 'tasks'], 'hyp': 160000, 'shards': 16},
+    'quick': {'enum': ['k1', 'k2', 'listener', 'hooks', 'tasks', 'extsoon'], 'hyp': 4000, 'shards': 8},
+    'thorough': {'enum': ['k1', 'k2', 'k3', 'k4w', 'listener', 'hooks', 'tasks', 'extsoon'], 'hyp': 160000, 'shards': 16},
 }
 ALPHABET = [['pause', 'p'], ['play'], ['kill', 'kt'], ['resume', 1]]
 TERMINAL = ('finished', 'excepted', 'killed')
@@ -36,6 +36,14 @@ def enumerate_cases(tier, scope):
         for name in ('async2', 'wait1', 'chain', 'waitwait', 'failing', 'selfkill', 'sync3'):
             for sched in gen.schedules(ALPHABET, k, max_gap):
                 yield {'program': cat[name], 'schedule': sched, 'tag': f'{scope}:{name}', 'listener_twice': True, 'cleanup_follow_up': True}
+    elif scope == 'extsoon':
+        alpha = [['ext_soon', 'raise', 'x'], ['ext_soon', 'ok', 'y'], ['pause', 'p'], ['play'], ['kill', 'kt']]
+        for name in ('async2', 'wait1', 'chain'):
+            for k in (1, 2):
+                for sched in gen.schedules(alpha, k, 2):
+                    if not any(ev[0] == 'ext_soon' for ev in sched):
+                        continue
+                    yield {'program': cat[name], 'schedule': sched, 'tag': f'extsoon:{name}'}
     elif scope == 'tasks':
         # the caller gives up on step_until_terminated() (its task is cancelled) and may step the process again later
         alpha = [['pause', 'p'], ['play'], ['kill', 'kt'], ['resume', 1], ['cancel_task'], ['restep']]
@@ -77,7 +85,7 @@ def enumerate_cases(tier, scope):
 @st.composite
 def _cases(draw, tier):
     prog = draw(gen.programs(max_steps=4 if tier == 'quick' else 6, self_calls=('pause', 'play', 'kill'), soon=True))
-    sched = draw(gen.control_schedules(['pause', 'play', 'kill', 'kill', 'resume', 'open', 'cancel_task', 'restep'], max_events=4, max_gap=4))
+    sched = draw(gen.control_schedules(['pause', 'play', 'kill', 'kill', 'resume', 'open', 'cancel_task', 'restep', 'ext_soon'], max_events=4, max_gap=4))
     plans = draw(gen.listener_plans(['kill', 'pause', 'play'])) if draw(st.booleans()) else []
     case = {'program': prog, 'schedule': sched, 'listener': plans}
     if draw(st.integers(0, 2)) == 0:
